@@ -22,6 +22,7 @@ PRIMES = [2.0, 3.0, 5.0, 7.0, 11.0, 13.0, 17.0, 19.0, 23.0, 29.0, 31.0, 37.0, 41
           149.0, 151.0]
 ENVS = ["e0", "e1", "e2"]
 UNITS3 = [si.DEFAULT, ("nm", "ms", "molecule"), ("mm", "min", "fmol")]
+FOREIGN = [("nm", "ms", "fmol"), si.DEFAULT, ("dm", "min", "nmol"), ("µm", "h", "mol"), ("mm", "s", "molecule")]
 
 
 # ---- one case -----------------------------------------------------------------------------------
@@ -65,6 +66,17 @@ def check_case(case):
         try:
             g = system.make_dxdtf(units_system=us)(0.0, [float(v) for v in spec["state"]])
             _cmp("make_dxdtf:" + case["sub"], [float(v) for v in g], f, sc, zeros, out)
+            if all(float(v) == int(v) for v in spec["state"]):
+                # the same amounts handed over as Python ints / as a tuple
+                g = system.make_dxdtf(units_system=us)(0.0, tuple(int(v) for v in spec["state"]))
+                _cmp("make_dxdtf:int-state:" + case["sub"], [float(v) for v in g], f, sc, zeros, out)
+            # the right-hand side requested in a units system foreign to the system's own: amounts in, amount/time out
+            fo = FOREIGN[case.get("k", len(spec["state"]) + len(spec["reactions"])) % len(FOREIGN)]
+            if tuple(fo) != tuple(us3):
+                fa = float(si.factor(us3, fo, (0, 0, 1)))
+                fr = float(si.factor(us3, fo, (0, -1, 1)))
+                g = system.make_dxdtf(units_system=uq.mk_sys(fo))(0.0, [float(v) * fa for v in spec["state"]])
+                _cmp("make_dxdtf:foreign-units:" + case["sub"], [float(v) / fr for v in g], f, sc, zeros, out)
         except Exception as e:
             out.append(("C01:make_dxdtf:unexpected-exception", "%s: %s" % (type(e).__name__, e)))
     if "euler" in obs:
@@ -142,7 +154,9 @@ def gen_reaction(tier):
     for a in m3:
         for b in m3:
             pairs.append((labels3, a, b))
-    states = {2: [[3.0, 5.0], [0.0, 7.0], [1.0, 1.0]], 3: [[3.0, 5.0, 7.0], [2.0, 0.0, 11.0], [1.0, 1.0, 1.0]]}
+    # incl. a completely empty cell (zero-order directions still fire) and amounts whose integer powers leave 64 bits
+    states = {2: [[3.0, 5.0], [0.0, 7.0], [1.0, 1.0], [0.0, 0.0], [3000000.0, 70000.0]],
+              3: [[3.0, 5.0, 7.0], [2.0, 0.0, 11.0], [1.0, 1.0, 1.0], [0.0, 0.0, 0.0], [4000000000.0, 3.0, 2100000.0]]}
     vols = [1.0, 8.0, 0.5]
     idx = 0
     for labels, a, b in pairs:
@@ -166,7 +180,7 @@ def gen_reaction(tier):
                                     "envs": ENVS, "space": space, "state": st}
                             us3 = UNITS3[idx % 3] if tier == "thorough" else UNITS3[idx % 2]
                             spec["units"] = list(us3)
-                            yield {"sub": "reaction-" + gtype, "spec": spec, "observers": ["kin", "dxdtf", "euler"]}
+                            yield {"sub": "reaction-" + gtype, "spec": spec, "observers": ["kin", "dxdtf", "euler"], "k": idx}
 
 
 def _env_maps(n, nenv=2):
